@@ -83,6 +83,11 @@ def run_merge(probes, fill=0):
         for i, p in enumerate(probes):
             # directory names whose alphabetical order is the reverse of the given order
             sd = d / ('probe_%s%d' % (chr(ord('z') - i), i))
+            if len(probes) >= 2 and sum(q.get('n_channels', 3) for q in probes) % 2 == 0:
+                # the layout of multi-probe recordings: <probe folder>/<sorter folder>, the same leaf
+                # name for every probe
+                sd = sd / 'ks2'
+                os.makedirs(str(sd.parent), exist_ok=True)
             truths.append(dsgen.make_dataset(sd, probe_spec(p, fill)))
             subdirs.append(sd)
         before = [dsgen.sha1_dir(sd) for sd in subdirs]
